@@ -1704,6 +1704,805 @@ fn synthetic_selftest() -> Result<serde_json::Value, String> {
 
 // =============================================================================================
 
+// =============================================================================================
+// stage: generated instructed fonts. fpgm / prep / glyph programs are assembled from generated (producer, consumer) pairs:
+// a producer leaves one value on the interpreter stack — by regular means or by every misuse the interpreter tolerates in
+// non-pedantic mode (CINDEX/MINDEX with k <= 0, k = depth, k > depth, huge; RS/RCVT of never-written, negative or
+// out-of-range cells; DEPTH after underflowing pops; coordinates/distances of twilight or glyph points never written or
+// out of range; CALL of undefined functions; undefined opcodes; arithmetic on an empty stack; arbitrary short sequences of
+// stack/arithmetic opcodes) — and a consumer feeds that value into a point movement (SHPIX, MSIRP, SCFS, WCVTP+MIAP,
+// WS+RS+SHPIX, as a point number, as a loop count). Whatever the value is, it must not depend on the scratch memory
+// (library vs caller memory with any prior content / leftovers of previous draws) nor on the instance's earlier configuration.
+
+fn ix_strategy() -> BoxedStrategy<i16> {
+    prop_oneof![8 => -3i16..=12, 1 => Just(-1i16), 1 => Just(i16::MIN), 1 => Just(i16::MAX), 2 => 12i16..=300, 1 => any::<i16>()].boxed()
+}
+fn val_strategy() -> BoxedStrategy<i16> {
+    prop_oneof![4 => -256i16..=256, 1 => Just(64i16), 1 => Just(0i16), 1 => any::<i16>()].boxed()
+}
+
+const SAFE_OPS: [u8; 32] = [
+    0x20, 0x21, 0x22, 0x23, 0x24, 0x25, 0x26, 0x8A, 0x60, 0x61, 0x62, 0x63, 0x64, 0x65, 0x66, 0x67, 0x8B, 0x8C, 0x50, 0x54, 0x5A, 0x5B, 0x5C, 0x43, 0x45, 0x4B,
+    0x4C, 0x68, 0x6C, 0x56, 0x57, 0x24,
+];
+const UNUSED_OPS: [u8; 8] = [0x28, 0x7B, 0x83, 0x84, 0x8F, 0x90, 0x91, 0x92];
+
+#[derive(Clone, Debug, Serialize, Deserialize)]
+enum Prod {
+    Const(i16),
+    CIndex { extra: Vec<i16>, k: i16, mindex: bool },
+    CIndexBig { a: i16, b: i16, mindex: bool },
+    Rs(i16),
+    Rcvt(i16),
+    DepthAfterPops(u8),
+    Gc { tw: bool, pt: i16, orig: bool },
+    Md { tw: bool, a: i16, b: i16, orig: bool },
+    Call(i16),
+    Unused(u8),
+    ClearThen(u8),
+    Mppem,
+    GetInfo(i16),
+    Raw { pre: Vec<i16>, ops: Vec<u8> },
+}
+
+fn prod_strategy() -> BoxedStrategy<Prod> {
+    prop_oneof![
+        2 => val_strategy().prop_map(Prod::Const),
+        4 => (proptest::collection::vec(val_strategy(), 0..4), ix_strategy(), any::<bool>()).prop_map(|(extra, k, mindex)| Prod::CIndex { extra, k, mindex }),
+        1 => (any::<i16>(), any::<i16>(), any::<bool>()).prop_map(|(a, b, mindex)| Prod::CIndexBig { a, b, mindex }),
+        3 => ix_strategy().prop_map(Prod::Rs),
+        3 => ix_strategy().prop_map(Prod::Rcvt),
+        2 => (0u8..6).prop_map(Prod::DepthAfterPops),
+        3 => (any::<bool>(), ix_strategy(), any::<bool>()).prop_map(|(tw, pt, orig)| Prod::Gc { tw, pt, orig }),
+        2 => (any::<bool>(), ix_strategy(), ix_strategy(), any::<bool>()).prop_map(|(tw, a, b, orig)| Prod::Md { tw, a, b, orig }),
+        2 => ix_strategy().prop_map(Prod::Call),
+        1 => (0u8..8).prop_map(Prod::Unused),
+        2 => (0u8..4).prop_map(Prod::ClearThen),
+        1 => Just(Prod::Mppem),
+        1 => val_strategy().prop_map(Prod::GetInfo),
+        3 => (proptest::collection::vec(val_strategy(), 0..4), proptest::collection::vec(0u8..32, 1..6)).prop_map(|(pre, ops)| Prod::Raw { pre, ops }),
+    ]
+    .boxed()
+}
+
+fn pw(v: &mut Vec<u8>, x: i16) {
+    v.push(0xB8);
+    v.extend_from_slice(&x.to_be_bytes());
+}
+
+fn emit_prod(v: &mut Vec<u8>, p: &Prod) {
+    match p {
+        Prod::Const(x) => pw(v, *x),
+        Prod::CIndex { extra, k, mindex } => {
+            for e in extra {
+                pw(v, *e);
+            }
+            pw(v, *k);
+            v.push(if *mindex { 0x26 } else { 0x25 });
+        }
+        Prod::CIndexBig { a, b, mindex } => {
+            pw(v, *a);
+            pw(v, *b);
+            v.push(0x63);
+            v.push(if *mindex { 0x26 } else { 0x25 });
+        }
+        Prod::Rs(i) => {
+            pw(v, *i);
+            v.push(op::RS);
+        }
+        Prod::Rcvt(i) => {
+            pw(v, *i);
+            v.push(op::RCVT);
+        }
+        Prod::DepthAfterPops(n) => {
+            for _ in 0..*n {
+                v.push(0x21);
+            }
+            v.push(0x24);
+        }
+        Prod::Gc { tw, pt, orig } => {
+            v.extend_from_slice(&[0xB0, if *tw { 0 } else { 1 }, op::SZP2]);
+            pw(v, *pt);
+            v.push(if *orig { 0x47 } else { 0x46 });
+            v.extend_from_slice(&[0xB0, 1, op::SZP2]);
+        }
+        Prod::Md { tw, a, b, orig } => {
+            v.extend_from_slice(&[0xB0, if *tw { 0 } else { 1 }, op::SZPS]);
+            pw(v, *a);
+            pw(v, *b);
+            v.push(if *orig { 0x4A } else { 0x49 });
+            v.extend_from_slice(&[0xB0, 1, op::SZPS]);
+        }
+        Prod::Call(f) => {
+            pw(v, *f);
+            v.push(op::CALL);
+        }
+        Prod::Unused(s) => v.push(UNUSED_OPS[*s as usize % 8]),
+        Prod::ClearThen(k) => {
+            v.push(0x22);
+            match k % 4 {
+                0 => v.push(op::ADD),
+                1 => v.push(0x20),
+                2 => {
+                    pw(v, 77);
+                    v.push(0x23);
+                }
+                _ => {
+                    pw(v, 77);
+                    v.push(0x8A);
+                }
+            }
+        }
+        Prod::Mppem => v.push(op::MPPEM),
+        Prod::GetInfo(s) => {
+            pw(v, *s);
+            v.push(0x88);
+        }
+        Prod::Raw { pre, ops } => {
+            for e in pre {
+                pw(v, *e);
+            }
+            for o in ops {
+                v.push(SAFE_OPS[*o as usize % 32]);
+            }
+        }
+    }
+}
+
+#[derive(Clone, Debug, Serialize, Deserialize)]
+enum Cons {
+    Shpix { p: i16 },
+    Msirp { rp0: i16, p: i16 },
+    Scfs { p: i16 },
+    WcvtpMiap { c: i16, p: i16 },
+    WsRsShpix { s: i16, p: i16 },
+    AsPoint,
+    AsLoop { p: i16 },
+}
+
+fn cons_strategy() -> BoxedStrategy<Cons> {
+    prop_oneof![
+        5 => ix_strategy().prop_map(|p| Cons::Shpix { p }),
+        2 => (ix_strategy(), ix_strategy()).prop_map(|(rp0, p)| Cons::Msirp { rp0, p }),
+        2 => ix_strategy().prop_map(|p| Cons::Scfs { p }),
+        2 => (ix_strategy(), ix_strategy()).prop_map(|(c, p)| Cons::WcvtpMiap { c, p }),
+        2 => (ix_strategy(), ix_strategy()).prop_map(|(s, p)| Cons::WsRsShpix { s, p }),
+        1 => Just(Cons::AsPoint),
+        1 => ix_strategy().prop_map(|p| Cons::AsLoop { p }),
+    ]
+    .boxed()
+}
+
+#[derive(Clone, Debug, Serialize, Deserialize)]
+struct GOp {
+    x_axis: bool,
+    /// the consumer works on the twilight zone
+    tw: bool,
+    prod: Prod,
+    cons: Cons,
+}
+
+fn gop_strategy(tw_weight: u32) -> BoxedStrategy<GOp> {
+    (prop_oneof![5 => Just(false), 1 => Just(true)], prop_oneof![6 => Just(false), tw_weight => Just(true)], prod_strategy(), cons_strategy())
+        .prop_map(|(x_axis, tw, prod, cons)| GOp { x_axis, tw, prod, cons })
+        .boxed()
+}
+
+fn emit_gop(v: &mut Vec<u8>, o: &GOp) {
+    v.push(if o.x_axis { 0x01 } else { 0x00 });
+    let zone_in = |v: &mut Vec<u8>| {
+        if o.tw {
+            v.extend_from_slice(&[0xB0, 0, op::SZPS]);
+        }
+    };
+    match &o.cons {
+        Cons::Shpix { p } => {
+            pw(v, *p);
+            v.push(op::MDAP0);
+            pw(v, *p);
+            emit_prod(v, &o.prod);
+            zone_in(v);
+            v.push(op::SHPIX);
+        }
+        Cons::Msirp { rp0, p } => {
+            pw(v, *rp0);
+            v.push(0x10);
+            pw(v, *p);
+            emit_prod(v, &o.prod);
+            zone_in(v);
+            v.push(0x3A);
+        }
+        Cons::Scfs { p } => {
+            pw(v, *p);
+            emit_prod(v, &o.prod);
+            zone_in(v);
+            v.push(0x48);
+        }
+        Cons::WcvtpMiap { c, p } => {
+            pw(v, *c);
+            emit_prod(v, &o.prod);
+            v.push(op::WCVTP);
+            pw(v, *p);
+            pw(v, *c);
+            zone_in(v);
+            v.push(op::MIAP0);
+        }
+        Cons::WsRsShpix { s, p } => {
+            pw(v, *s);
+            emit_prod(v, &o.prod);
+            v.push(op::WS);
+            pw(v, *p);
+            v.push(op::MDAP0);
+            pw(v, *p);
+            pw(v, *s);
+            v.push(op::RS);
+            zone_in(v);
+            v.push(op::SHPIX);
+        }
+        Cons::AsPoint => {
+            emit_prod(v, &o.prod);
+            zone_in(v);
+            v.push(0x2F);
+        }
+        Cons::AsLoop { p } => {
+            emit_prod(v, &o.prod);
+            v.push(0x17);
+            pw(v, *p);
+            pw(v, 64);
+            zone_in(v);
+            v.push(op::SHPIX);
+        }
+    }
+    v.extend_from_slice(&[0xB0, 1, op::SZPS]);
+}
+
+#[derive(Clone, Debug, Serialize, Deserialize)]
+struct GenFont {
+    twilight: u8,
+    storage: u8,
+    fdefs: u8,
+    idefs: u8,
+    stack: u8,
+    cvt: Vec<i16>,
+    /// (key, is IDEF, body): fpgm definitions; the body leaves one value
+    defs: Vec<(u8, bool, Prod)>,
+    prep: Vec<GOp>,
+    glyphs: Vec<Vec<GOp>>,
+}
+
+fn genfont_strategy() -> BoxedStrategy<GenFont> {
+    (
+        (0u8..6, 0u8..9, prop_oneof![1 => 0u8..3, 4 => 6u8..10], prop_oneof![1 => Just(0u8), 3 => 2u8..5], 0u8..24),
+        proptest::collection::vec(-400i16..900, 0..9),
+        proptest::collection::vec((0u8..8, prop_oneof![4 => Just(false), 1 => Just(true)], prod_strategy()), 0..4),
+        prop_oneof![1 => Just(vec![]).boxed(), 1 => proptest::collection::vec(gop_strategy(18), 1..3).boxed()],
+        proptest::collection::vec(proptest::collection::vec(gop_strategy(1), 1..4), 2..6),
+    )
+        .prop_map(|((twilight, storage, fdefs, idefs, stack), cvt, defs, prep, glyphs)| GenFont { twilight, storage, fdefs, idefs, stack, cvt, defs, prep, glyphs })
+        .boxed()
+}
+
+fn build_genfont(g: &GenFont) -> Vec<u8> {
+    let sq = |x: i16, y: i16, w: i16, h: i16| -> Vec<Pt> { vec![(x, y, true), (x + w, y, true), (x + w, y + h, true), (x, y + h, true)] };
+    let mut fpgm = vec![];
+    for (key, idef, body) in &g.defs {
+        let k = if *idef { UNUSED_OPS[*key as usize % 8] as i16 } else { *key as i16 };
+        pw(&mut fpgm, k);
+        fpgm.push(if *idef { op::IDEF } else { op::FDEF });
+        emit_prod(&mut fpgm, body);
+        fpgm.push(op::ENDF);
+    }
+    let mut prep = vec![];
+    for o in &g.prep {
+        emit_gop(&mut prep, o);
+    }
+    let mut glyphs: Vec<Vec<u8>> = vec![vec![]];
+    for ops in &g.glyphs {
+        let mut p = vec![];
+        for o in ops {
+            emit_gop(&mut p, o);
+        }
+        glyphs.push(simple_glyph(&[sq(0, 0, 500, 700), sq(100, 100, 300, 500)], &p));
+    }
+    // reference: the same outline with a program that moves nothing
+    glyphs.push(simple_glyph(&[sq(0, 0, 500, 700), sq(100, 100, 300, 500)], &[0x00]));
+    let n = glyphs.len();
+    let mut glyf = vec![];
+    let mut offsets = vec![0u32];
+    for gl in &glyphs {
+        glyf.extend_from_slice(gl);
+        offsets.push(glyf.len() as u32);
+    }
+    let mut cvt = vec![];
+    for c in &g.cvt {
+        cvt.extend_from_slice(&c.to_be_bytes());
+    }
+    let mut extra = vec![(*b"fpgm", fpgm), (*b"prep", prep), (*b"maxp", maxp_with(n as u16, g.twilight as u16, g.storage as u16, g.fdefs as u16, g.idefs as u16, g.stack as u16))];
+    if !cvt.is_empty() {
+        extra.push((*b"cvt ", cvt));
+    }
+    Kit { num_glyphs: n as u16, upem: 1000, glyf: Some((glyf, offsets)), h_metrics: (0..n).map(|i| (600 + i as u16 * 10, 20)).collect(), extra, ..Default::default() }.build()
+}
+
+#[derive(Clone, Debug, Serialize, Deserialize)]
+struct GenCase {
+    a: GenFont,
+    b: GenFont,
+    ppem_a: u32,
+    ppem_b: u32,
+    target_a: u8,
+    target_b: u8,
+    pedantic: bool,
+    buf: Buf,
+    order: u64,
+}
+
+fn gencase_strategy() -> impl Strategy<Value = GenCase> {
+    (
+        genfont_strategy(),
+        genfont_strategy(),
+        ppem_strategy(),
+        ppem_strategy(),
+        prop_oneof![3 => Just(0u8), 2 => 1u8..17],
+        prop_oneof![3 => Just(0u8), 2 => 1u8..17],
+        prop_oneof![6 => Just(false), 1 => Just(true)],
+        buf_strategy(),
+        any::<u64>(),
+    )
+        .prop_map(|(a, b, ppem_a, ppem_b, target_a, target_b, pedantic, mut buf, order)| {
+            if buf.mode == 0 {
+                buf.mode = 1;
+            }
+            GenCase { a, b, ppem_a, ppem_b, target_a, target_b, pedantic, buf, order }
+        })
+}
+
+fn mk_instance(outlines: &OutlineGlyphCollection, ppem64: u32, coords: &[F2Dot14], hint: &Hint) -> Result<HintingInstance, String> {
+    let Hint::Hinted { engine, target, .. } = hint else { return Err("unhinted".into()) };
+    HintingInstance::new(outlines, size_of(ppem64), LocationRef::new(coords), HintingOptions { engine: engine_of(*engine, outlines), target: target_of(*target) })
+        .map_err(|e| format!("{e:?}"))
+}
+
+fn permute(n: usize, seed: u64) -> Vec<usize> {
+    let mut order: Vec<usize> = (0..n).collect();
+    let mut p = seed;
+    for i in (1..n).rev() {
+        p = p.wrapping_mul(6364136223846793005).wrapping_add(1442695040888963407);
+        order.swap(i, ((p >> 33) % (i as u64 + 1)) as usize);
+    }
+    order
+}
+
+fn cmp_local(sig: &str, what: &str, font: &str, g: u32, base: &Drawn, got: &Drawn) -> CaseResult {
+    if base.same(got) {
+        Ok(())
+    } else {
+        Err(fail(sig, format!("{what}: {font} gid {g}: {}", describe_diff(base, got))))
+    }
+}
+
+fn test_gen(c: &GenCase, stats: &Stats) -> CaseResult {
+    let (da, db) = (build_genfont(&c.a), build_genfont(&c.b));
+    let (Ok(fa), Ok(fb)) = (FontRef::new(&da), FontRef::new(&db)) else { return infra("generated font does not open".into()) };
+    let (oa, ob) = (fa.outline_glyphs(), fb.outline_glyphs());
+    let hint_a = Hint::Hinted { engine: 0, target: c.target_a, pedantic: false };
+    let hint_b = Hint::Hinted { engine: 0, target: c.target_b, pedantic: c.pedantic };
+    let nb = c.b.glyphs.len() as u32 + 2;
+    // baseline: fresh instance per glyph, library (zero-filled) memory
+    let mut base: Vec<Drawn> = vec![];
+    let mut base_inst: Result<(), String> = Ok(());
+    let mut moved = 0;
+    for g in 0..nb {
+        let inst = match mk_instance(&ob, c.ppem_b, &[], &hint_b) {
+            Ok(i) => i,
+            Err(e) => {
+                base_inst = Err(e);
+                break;
+            }
+        };
+        let Some(gl) = ob.get(GlyphId::new(g)) else { return infra("generated glyph missing".into()) };
+        let how = How::Hinted { inst: &inst, pedantic: c.pedantic };
+        let d = draw_one(&gl, &how, None);
+        let d2 = draw_one(&gl, &how, None);
+        cmp_local("repeat-mismatch", "second draw through the same fresh instance", "generated font B", g, &d, &d2)?;
+        if d.is_ok() {
+            check_metrics_finite(&d).map_err(|e| fail("metrics-not-finite", format!("generated font gid {g}: {e}")))?;
+            well_formed(&d).map_err(|e| fail("malformed-stream", format!("generated font gid {g}: {e}")))?;
+        }
+        base.push(d);
+    }
+    // glyphs whose program changed the outline relative to the reference glyph (same outline, inert program)
+    if let (Ok(()), Some(r)) = (&base_inst, base.last()) {
+        moved = base[1..base.len() - 1].iter().filter(|d| d.is_ok() && r.is_ok() && d.cmds != r.cmds).count();
+    }
+    let order = permute(nb as usize, c.order);
+    let mut scratch = Scratch::default();
+    // memory: second fresh instance, one caller buffer for the whole sequence
+    if base_inst.is_ok() {
+        let inst = mk_instance(&ob, c.ppem_b, &[], &hint_b).map_err(|e| fail("reconfigure-result", format!("second HintingInstance::new failed where the first succeeded: {e}")))?;
+        let how = How::Hinted { inst: &inst, pedantic: c.pedantic };
+        for &k in &order {
+            let gl = ob.get(GlyphId::new(k as u32)).unwrap();
+            let d = draw_mem(&gl, &how, &mut scratch, &c.buf);
+            cmp_local("memory-mismatch", &format!("caller memory (mode {}, start%8={}, fill {}, reuse {})", c.buf.mode, c.buf.misalign, c.buf.fill, c.buf.reuse), "generated font B", k as u32, &base[k], &d)?;
+        }
+    }
+    // history: instance configured for font A first
+    let mut hist = false;
+    if let Ok(mut inst) = mk_instance(&oa, c.ppem_a, &[], &hint_a) {
+        hist = true;
+        for g in 0..c.a.glyphs.len() as u32 + 2 {
+            if let Some(gl) = oa.get(GlyphId::new(g)) {
+                let _ = draw_mem(&gl, &How::Hinted { inst: &inst, pedantic: false }, &mut scratch, &c.buf);
+            }
+        }
+        let r = reconfigure(&mut inst, &ob, c.ppem_b, &[], &hint_b);
+        if r != base_inst {
+            return Err(fail("reconfigure-result", format!("generated font B: fresh new -> {:?}, reconfigure after font A -> {:?}", base_inst, r)));
+        }
+        if r.is_ok() {
+            let how = How::Hinted { inst: &inst, pedantic: c.pedantic };
+            for &k in &order {
+                let gl = ob.get(GlyphId::new(k as u32)).unwrap();
+                let d = draw_one(&gl, &how, None);
+                cmp_local("history-mismatch", "instance configured for generated font A before", "generated font B", k as u32, &base[k], &d)?;
+                let d = draw_mem(&gl, &how, &mut scratch, &c.buf);
+                cmp_local("memory-mismatch", "reused instance, caller memory", "generated font B", k as u32, &base[k], &d)?;
+            }
+        }
+    }
+    stats.class(if base_inst.is_ok() { "G:instance-ok" } else { "G:instance-rejected(fpgm/prep error)" });
+    if hist {
+        stats.class("G:history-instance-ok");
+    }
+    if moved > 0 {
+        stats.class("G:program-moved-points");
+        stats.nontrivial(hash_json(c));
+        if stats.want_sample() && moved >= 2 {
+            stats.sample(serde_json::json!({"stage": "generated-programs", "glyph_programs": c.b.glyphs, "prep": c.b.prep.len(), "ppem64": c.ppem_b, "target": c.target_b, "buf": c.buf, "glyphs_moved": moved}));
+        }
+    }
+    Ok(())
+}
+
+// =============================================================================================
+// stage: corpus variable fonts with small structural edits of gvar (some glyph's variation data unlocatable / empty / short),
+// drawn at non-default locations after other glyphs with the same caller buffer
+
+#[derive(Clone, Debug, Serialize, Deserialize)]
+enum GvarEdit {
+    GlyphCountMinus(u8),
+    OffsetsEqual { g: u32 },
+    OffsetPastEnd { g: u32, by: u32 },
+    TupleCountZero { g: u32, keep_flags: bool },
+    Truncate { g: u32, keep: u8 },
+    SharedPointsNoData { g: u32 },
+    Byte { g: u32, off: u8, val: u8 },
+    HeaderField { which: u8, delta: i8 },
+}
+
+fn gsel_strategy() -> BoxedStrategy<u32> {
+    prop_oneof![2 => Just(u32::MAX), 1 => Just(0u32), 4 => any::<u32>()].boxed()
+}
+
+fn gvar_edit_strategy() -> BoxedStrategy<GvarEdit> {
+    prop_oneof![
+        3 => (1u8..=4).prop_map(GvarEdit::GlyphCountMinus),
+        2 => gsel_strategy().prop_map(|g| GvarEdit::OffsetsEqual { g }),
+        2 => (gsel_strategy(), prop_oneof![Just(0u32), Just(2u32), Just(1000u32), Just(0x7FFF_0000u32)]).prop_map(|(g, by)| GvarEdit::OffsetPastEnd { g, by }),
+        2 => (gsel_strategy(), any::<bool>()).prop_map(|(g, keep_flags)| GvarEdit::TupleCountZero { g, keep_flags }),
+        2 => (gsel_strategy(), 0u8..24).prop_map(|(g, keep)| GvarEdit::Truncate { g, keep }),
+        2 => gsel_strategy().prop_map(|g| GvarEdit::SharedPointsNoData { g }),
+        2 => (gsel_strategy(), 0u8..32, prop_oneof![Just(0u8), Just(0xFFu8), Just(0x80u8), any::<u8>()]).prop_map(|(g, off, val)| GvarEdit::Byte { g, off, val }),
+        1 => (0u8..4, prop_oneof![Just(-1i8), Just(1i8), Just(-2i8), Just(4i8)]).prop_map(|(which, delta)| GvarEdit::HeaderField { which, delta }),
+    ]
+    .boxed()
+}
+
+fn rd16(t: &[u8], o: usize) -> Option<u16> {
+    t.get(o..o + 2).map(|b| u16::from_be_bytes([b[0], b[1]]))
+}
+fn rd32(t: &[u8], o: usize) -> Option<u32> {
+    t.get(o..o + 4).map(|b| u32::from_be_bytes([b[0], b[1], b[2], b[3]]))
+}
+fn wr16(t: &mut [u8], o: usize, v: u16) {
+    if let Some(b) = t.get_mut(o..o + 2) {
+        b.copy_from_slice(&v.to_be_bytes());
+    }
+}
+fn wr32(t: &mut [u8], o: usize, v: u32) {
+    if let Some(b) = t.get_mut(o..o + 4) {
+        b.copy_from_slice(&v.to_be_bytes());
+    }
+}
+
+struct GvarView {
+    count: usize,
+    long: bool,
+    array: usize,
+}
+impl GvarView {
+    fn new(t: &[u8]) -> Option<GvarView> {
+        Some(GvarView { count: rd16(t, 12)? as usize, long: rd16(t, 14)? & 1 != 0, array: rd32(t, 16)? as usize })
+    }
+    fn off(&self, t: &[u8], i: usize) -> Option<u32> {
+        if self.long {
+            rd32(t, 20 + 4 * i)
+        } else {
+            rd16(t, 20 + 2 * i).map(|v| v as u32 * 2)
+        }
+    }
+    fn set_off(&self, t: &mut [u8], i: usize, v: u32) {
+        if self.long {
+            wr32(t, 20 + 4 * i, v)
+        } else {
+            wr16(t, 20 + 2 * i, (v / 2).min(0xFFFF) as u16)
+        }
+    }
+    fn g(&self, raw: u32) -> usize {
+        if raw == u32::MAX {
+            self.count.saturating_sub(1)
+        } else {
+            idx(raw, self.count.max(1))
+        }
+    }
+}
+
+fn apply_gvar_edit(t: &mut Vec<u8>, e: &GvarEdit) {
+    let Some(v) = GvarView::new(t) else { return };
+    match e {
+        GvarEdit::GlyphCountMinus(n) => wr16(t, 12, (v.count as u16).saturating_sub(*n as u16)),
+        GvarEdit::OffsetsEqual { g } => {
+            let g = v.g(*g);
+            if let Some(o) = v.off(t, g) {
+                v.set_off(t, g + 1, o);
+            }
+        }
+        GvarEdit::OffsetPastEnd { g, by } => {
+            let g = v.g(*g);
+            let end = (t.len().saturating_sub(v.array)) as u32;
+            v.set_off(t, g + 1, end.saturating_add(*by));
+        }
+        GvarEdit::TupleCountZero { g, keep_flags } => {
+            let g = v.g(*g);
+            if let Some(o) = v.off(t, g) {
+                let p = v.array + o as usize;
+                if let Some(c) = rd16(t, p) {
+                    wr16(t, p, if *keep_flags { c & 0xF000 } else { 0 });
+                }
+            }
+        }
+        GvarEdit::Truncate { g, keep } => {
+            let g = v.g(*g);
+            if let (Some(a), Some(b)) = (v.off(t, g), v.off(t, g + 1)) {
+                let n = a.saturating_add(*keep as u32);
+                if n < b {
+                    v.set_off(t, g + 1, n);
+                }
+            }
+        }
+        GvarEdit::SharedPointsNoData { g } => {
+            let g = v.g(*g);
+            if let (Some(a), Some(b)) = (v.off(t, g), v.off(t, g + 1)) {
+                let p = v.array + a as usize;
+                if let Some(c) = rd16(t, p) {
+                    wr16(t, p, c | 0x8000);
+                    wr16(t, p + 2, b.saturating_sub(a).min(0xFFFF) as u16);
+                }
+            }
+        }
+        GvarEdit::Byte { g, off, val } => {
+            let g = v.g(*g);
+            if let Some(a) = v.off(t, g) {
+                if let Some(b) = t.get_mut(v.array + a as usize + *off as usize) {
+                    *b = *val;
+                }
+            }
+        }
+        GvarEdit::HeaderField { which, delta } => {
+            let d = *delta as i32;
+            match which % 4 {
+                0 => {
+                    let x = rd16(t, 4).unwrap_or(0);
+                    wr16(t, 4, (x as i32 + d).clamp(0, 0xFFFF) as u16)
+                }
+                1 => {
+                    let x = rd16(t, 6).unwrap_or(0);
+                    wr16(t, 6, (x as i32 + d).clamp(0, 0xFFFF) as u16)
+                }
+                2 => {
+                    let x = rd32(t, 8).unwrap_or(0);
+                    wr32(t, 8, (x as i64 + d as i64).max(0) as u32)
+                }
+                _ => {
+                    let x = rd32(t, 16).unwrap_or(0);
+                    wr32(t, 16, (x as i64 + d as i64).max(0) as u32)
+                }
+            }
+        }
+    }
+}
+
+/// (index into corpus fonts, sfnt version, tables) of the glyf fonts with gvar
+fn gvar_fonts() -> &'static Vec<(usize, u32, Vec<([u8; 4], Vec<u8>)>)> {
+    static L: OnceLock<Vec<(usize, u32, Vec<([u8; 4], Vec<u8>)>)>> = OnceLock::new();
+    L.get_or_init(|| {
+        let mut v = vec![];
+        for (i, f) in corpus().fonts.iter().enumerate() {
+            if f.has_gvar && f.format == OutlineGlyphFormat::Glyf && !f.name.contains('#') {
+                if let Some((ver, tables)) = vcore::sfnt::split_tables(f.font.data.as_bytes()) {
+                    if tables.iter().any(|t| &t.0 == b"gvar") {
+                        v.push((i, ver, tables));
+                    }
+                }
+            }
+        }
+        v
+    })
+}
+
+#[derive(Clone, Debug, Serialize, Deserialize)]
+struct VCase {
+    font: u32,
+    edits: Vec<GvarEdit>,
+    coords: Vec<i16>,
+    ppem64: u32,
+    hint: Hint,
+    gids: Vec<u32>,
+    buf: Buf,
+    order_ppem64: u32,
+}
+
+fn vcase_strategy() -> impl Strategy<Value = VCase> {
+    (
+        any::<u32>(),
+        proptest::collection::vec(gvar_edit_strategy(), 1..=3),
+        proptest::collection::vec(prop_oneof![2 => Just(16384i16), 2 => Just(-16384i16), 3 => (-16384i16..=16384).prop_map(|x| if x == 0 { 4915 } else { x })], 1..=4),
+        ppem_strategy(),
+        prop_oneof![
+            4 => Just(Hint::Unhinted { harfbuzz: false }),
+            2 => Just(Hint::Unhinted { harfbuzz: true }),
+            4 => hinted_strategy(),
+        ],
+        proptest::collection::vec(gsel_strategy(), 2..=6),
+        buf_strategy(),
+        ppem_strategy(),
+    )
+        .prop_map(|(font, edits, coords, ppem64, hint, gids, mut buf, order_ppem64)| {
+            if buf.mode == 0 {
+                buf.mode = 1;
+            }
+            VCase { font, edits, coords, ppem64, hint, gids, buf, order_ppem64 }
+        })
+}
+
+fn test_gvar(c: &VCase, stats: &Stats) -> CaseResult {
+    let l = gvar_fonts();
+    if l.is_empty() {
+        return infra("no variable glyf fonts in the corpus".into());
+    }
+    let (fi, ver, tables) = &l[idx(c.font, l.len())];
+    let orig = &corpus().fonts[*fi];
+    let mut tables = tables.clone();
+    let mut changed = false;
+    for t in tables.iter_mut() {
+        if &t.0 == b"gvar" {
+            let before = t.1.clone();
+            for e in &c.edits {
+                apply_gvar_edit(&mut t.1, e);
+            }
+            changed = before != t.1;
+        }
+    }
+    let bytes = vcore::sfnt::assemble(*ver, &tables);
+    let Ok(font) = FontRef::new(&bytes) else {
+        stats.class("V:derived-font-rejected");
+        return Ok(());
+    };
+    let o = font.outline_glyphs();
+    if o.format().is_none() {
+        stats.class("V:derived-font-rejected");
+        return Ok(());
+    }
+    let n = orig.nglyphs;
+    let coords = coords_of(orig.axes, &Loc::Coords(c.coords.clone()));
+    let gids: Vec<u32> = c.gids.iter().map(|r| if *r == u32::MAX { n - 1 } else { idx(*r, n as usize) as u32 }).collect();
+    let hinted = matches!(c.hint, Hint::Hinted { .. });
+    let pedantic = matches!(c.hint, Hint::Hinted { pedantic: true, .. });
+    let hb = matches!(c.hint, Hint::Unhinted { harfbuzz: true });
+    let size = size_of(c.ppem64);
+    // baseline: fresh instance per glyph, zero-filled library memory
+    let mut base: Vec<Option<Drawn>> = vec![];
+    let mut base_inst: Result<(), String> = Ok(());
+    let mut visible = false;
+    for g in &gids {
+        let Some(gl) = o.get(GlyphId::new(*g)) else {
+            base.push(None);
+            continue;
+        };
+        let inst = if hinted {
+            match mk_instance(&o, c.ppem64, &coords, &c.hint) {
+                Ok(i) => Some(i),
+                Err(e) => {
+                    base_inst = Err(e);
+                    break;
+                }
+            }
+        } else {
+            None
+        };
+        let how = match &inst {
+            Some(i) => How::Hinted { inst: i, pedantic },
+            None => How::Unhinted { size, coords: &coords, harfbuzz: hb },
+        };
+        let d = draw_one(&gl, &how, None);
+        if d.is_ok() {
+            check_metrics_finite(&d).map_err(|e| fail("metrics-not-finite", format!("derived {} gid {g}: {e}", orig.name)))?;
+            well_formed(&d).map_err(|e| fail("malformed-stream", format!("derived {} gid {g} edits {:?}: {e}", orig.name, c.edits)))?;
+            if !hinted {
+                if let Some(og) = orig.font.outline_glyphs().get(GlyphId::new(*g)) {
+                    if !draw_one(&og, &how, None).same(&d) {
+                        visible = true;
+                    }
+                }
+            }
+        }
+        base.push(Some(d));
+    }
+    let what = format!("derived from {} by {:?}, coords {:?}, {:?} @ppem64 {}", orig.name, c.edits, c.coords, c.hint, c.ppem64);
+    let mut scratch = Scratch::default();
+    // the same glyph sequence with one caller buffer; hinted: an instance that was configured for the original font before
+    let mut inst: Option<HintingInstance> = None;
+    if hinted {
+        let oo = orig.font.outline_glyphs();
+        let mut i = match mk_instance(&oo, c.order_ppem64, &[], &c.hint) {
+            Ok(i) => {
+                if let Some(gl) = oo.get(GlyphId::new(gids[0])) {
+                    let _ = draw_mem(&gl, &How::Hinted { inst: &i, pedantic: false }, &mut scratch, &c.buf);
+                }
+                Some(i)
+            }
+            Err(_) => None,
+        };
+        let r = match i.as_mut() {
+            Some(i) => reconfigure(i, &o, c.ppem64, &coords, &c.hint),
+            None => mk_instance(&o, c.ppem64, &coords, &c.hint).map(|x| i = Some(x)),
+        };
+        if r != base_inst {
+            return Err(fail("reconfigure-result", format!("{what}: fresh new -> {:?}, reused instance -> {:?}", base_inst, r)));
+        }
+        if r.is_err() {
+            stats.class("V:instance-rejected");
+            return Ok(());
+        }
+        inst = i;
+    }
+    let how = match &inst {
+        Some(i) => How::Hinted { inst: i, pedantic },
+        None => How::Unhinted { size, coords: &coords, harfbuzz: hb },
+    };
+    let mut any_ok = false;
+    for (g, b) in gids.iter().zip(&base) {
+        let (Some(gl), Some(b)) = (o.get(GlyphId::new(*g)), b) else { continue };
+        any_ok |= b.is_ok() && !b.cmds.is_empty();
+        let d = draw_mem(&gl, &how, &mut scratch, &c.buf);
+        cmp_local("memory-mismatch", &format!("{what}: caller buffer shared by the sequence {gids:?} (mode {}, start%8={}, fill {}, reuse {})", c.buf.mode, c.buf.misalign, c.buf.fill, c.buf.reuse), "", *g, b, &d)?;
+        let d = draw_one(&gl, &how, None);
+        cmp_local(if hinted { "history-mismatch" } else { "draw-order-mismatch" }, &format!("{what}: library memory, after the sequence"), "", *g, b, &d)?;
+    }
+    stats.class(if changed { "V:gvar-changed" } else { "V:edit-without-effect" });
+    if visible {
+        stats.class("V:edit-visible-in-outline");
+    }
+    if changed && any_ok {
+        stats.nontrivial(hash_json(c));
+        if stats.want_sample() && visible {
+            stats.sample(serde_json::json!({"stage": "gvar-edits", "font": orig.name, "edits": c.edits, "coords": c.coords, "gids": gids, "hint": c.hint, "buf": c.buf}));
+        }
+    }
+    Ok(())
+}
+
 fn main() {
     if std::env::var("C12_CHILD").is_ok() {
         child_main();
@@ -1743,6 +2542,8 @@ fn main() {
     }
     ctx.index_stage("synthetic-pairs", Isolation::Threads, syn_count(), syn_case, test_syn);
     ctx.index_stage("known-hb-dirty-memory", Isolation::Threads, hb_count(), hb_case, test_hb);
+    ctx.prop_stage("generated-programs", Isolation::Threads, ctx.n(150_000, 1_500_000), gencase_strategy, test_gen);
+    ctx.prop_stage("gvar-edits", Isolation::Threads, ctx.n(20_000, 200_000), vcase_strategy, test_gvar);
     ctx.prop_stage("history", Isolation::Threads, ctx.n(50_000, 600_000), case_strategy, test_history);
     ctx.prop_stage("threads", Isolation::Threads, ctx.n(2_500, 25_000), tcase_strategy, test_threads);
     ctx.prop_stage("fresh-process", Isolation::Threads, ctx.n(400, 3_000), pcase_strategy, test_process);
